@@ -36,6 +36,21 @@ func c11Gen(rng *rand.Rand, idx int, thorough bool) c11Scenario {
 			g.Tweak("s0"))
 		n = len(sc.History) + rng.IntN(4)
 	}
+	if idx%8 == 4 {
+		// skeleton: a static-certificate root service on a wildcard host and a sub-path service on
+		// the same host (which inherits TLS and is saved that way)
+		root := g.Deploy("s0")
+		root.Hosts, root.Prefixes, root.TLS = []string{"*.wild.example"}, nil, pick(rng, []string{"static", "static-noredirect"})
+		sub := g.Deploy("s1")
+		sub.Hosts, sub.Prefixes, sub.TLS = []string{"*.wild.example"}, []string{"/api"}, ""
+		g.last["s0"], g.last["s1"] = root, sub
+		g.exists["s0"], g.exists["s1"] = true, true
+		if rng.IntN(2) == 0 {
+			root, sub = sub, root
+		}
+		sc.History = append(sc.History, root, sub)
+		n = len(sc.History) + rng.IntN(4)
+	}
 	for i := len(sc.History); i < n; i++ {
 		c := g.Next()
 		if i == 0 {
